@@ -103,13 +103,18 @@ example : (Src.concat (.cons (.orig [120, 59, 10, 121] [97]) (.cons (.rawStr [59
 
 /-- **C04, ReplaceSource over an (ASCII) OriginalSource, chunk stream**: every chunk the ReplaceSource delivers is unmapped, or
 reports source 0 at the *true* line and column, in the original text `T`, of byte `k + p` — `k` being the start of a potential
-token `tok` of `T` and `p < |tok|` the offset inside it at which the delivered piece was cut (or replacement content spliced in).
+token `tok` of `T` and `p < |tok|` the offset inside it at which the delivered piece was cut (or replacement content spliced in);
+and the delivered text is exactly that piece `tok[p..q)` — the bytes `T[k+p .. k+q)`, so the chunk *starts on the very byte whose
+position it reports* and every following byte of the piece is an original byte of the same line with a larger column — or it is a
+line of the content of one of the replacements.
 Chain: token positions of the OriginalSource (C02) ∘ token lies in its line ∘ the recorded content spells out the chunk (`FM`) ∘
 the advance rule of `ReplaceSource` (C06). -/
 theorem c04_replace_original_stream (T name : Text) (ha : IsAscii T) (hl : T.length < USIZE_MAX) (rs : List Repl) (final : Bool) (σ : Store) :
     ∀ t' mm, Ev.chunk t' mm ∈ ((Src.replace (.orig T name) rs).stream ⟨true, final⟩ σ).1.evs →
       mm.orig = none ∨ ∃ tok k p y, k + p < T.length ∧ p < tok.length ∧ tok <+: T.drop k ∧ TokOK tok ∧ mm.orig = some y ∧ y.src = 0
-        ∧ adv startPos (T.take (k + p)) = ⟨y.line, y.col⟩ :=
+        ∧ adv startPos (T.take (k + p)) = ⟨y.line, y.col⟩
+        ∧ ((∃ q, p < q ∧ q ≤ tok.length ∧ t' = some (bsub tok p q))
+            ∨ (∃ r ∈ sortRepls rs, ∃ cl ∈ splitLines r.content, t' = some cl)) :=
   replace_original_true T name ha hl (sortRepls rs)
 
 /-- **C04, the same through `map()`**: whatever the SourceMap `get_map` returns for the ReplaceSource resolves a byte of `source()`
@@ -136,8 +141,11 @@ example : (replaceStream (sortRepls [⟨1, 2, [88, 89], none, 1⟩]) (streamOrig
 
 /-- **C04, ReplaceSource over a ConcatSource tree of OriginalSource / raw leaves, chunk stream** (ASCII file contents, one content
 per file name): every chunk the ReplaceSource delivers is unmapped, or names — through the files the stream itself announces — a
-file with its content `T` and a line and column that are the *true* position in `T` of some byte `q` of `T`: the byte at which the
-delivered piece was cut out of a potential token of `T`, or at which replacement content was spliced in.
+file with its content `T` and a line and column that are the *true* position in `T` of some byte `q` of `T`; and the delivered
+text is the bytes `T[q..q')` of that very file starting at that very byte, byte `j` of the chunk being the byte of `T` whose true
+position is the reported line and the reported column plus `j` (so every surviving original character is covered by a segment
+of its own file and its own original line whose column is not after it, and the segment starts on the character it names), or a line of
+the content of one of the replacements (generated text, attributed to the byte `q` it was spliced in at).
 Chain: every mapped chunk of the inner tree's stream is a token of its file at its true position (`ProvOK`: OriginalSource leaf,
 kept by ConcatSource's renumbering) ∘ the ReplaceSource records the announced contents under the same indices ∘ the recorded
 content spells out the inner chunk (`FM`) ∘ the advance rule (C06). -/
@@ -146,7 +154,10 @@ theorem c04_replace_tree_stream (cons : Text → Option Text) (inner : Src) (ho 
     ∀ t' mm, Ev.chunk t' mm ∈ ((Src.replace inner rs).stream ⟨true, final⟩ σ).1.evs →
       mm.orig = none ∨ ∃ name T q y, mm.orig = some y
         ∧ tblS emptyS ((Src.replace inner rs).stream ⟨true, final⟩ σ).1.evs y.src = some (name, some T)
-        ∧ q < T.length ∧ adv startPos (T.take q) = ⟨y.line, y.col⟩ :=
+        ∧ q < T.length ∧ adv startPos (T.take q) = ⟨y.line, y.col⟩
+        ∧ ((∃ q', q < q' ∧ q' ≤ T.length ∧ t' = some (bsub T q q')
+              ∧ ∀ j, j < q' - q → adv startPos (T.take (q + j)) = ⟨y.line, y.col + j⟩)
+            ∨ (∃ r ∈ sortRepls rs, ∃ cl ∈ splitLines r.content, t' = some cl)) :=
   replace_origTree_true cons inner ho hw hasc rs final σ
 
 /-- **… and through `map()`**: whatever the SourceMap returned for such a ReplaceSource resolves a byte of `source()` to — through
